@@ -304,6 +304,19 @@ def layer_order_permutations(ctx, n):
                 ctx.violation(dict(nodes=c["nodes"], edges=c["edges"], layers=[list(x) for x in calls], permuted_layers=[list(x) for x in c2["arch_calls"]], rule=metas[i], base=base[i][0], permuted=out[i][0]),
                               "layer rule outcome depends on the order in which layers / modules / object layers are listed", {"kind": "layer_permutation"})
                 break
+        # a layer named twice in the list of object layers (in front, in the middle): naming it twice states nothing new
+        if len(c["objs"]) >= 1:
+            for dup in ([c["objs"][0]] + list(c["objs"]), list(c["objs"][:1]) + list(c["objs"][:1]) + list(reversed(c["objs"][1:])) + list(c["objs"][:1])):
+                c3 = dict(c, objs=dup)
+                hs3, _ = c05.histories(c3)
+                out = [layers.run_lr_impl(h, arch) for h in hs3]
+                ctx.evaluations += len(out)
+                ctx.stat("object_layer_named_twice")
+                if out != base:
+                    i = next(i for i in range(len(out)) if out[i] != base[i])
+                    ctx.violation(dict(nodes=c["nodes"], edges=c["edges"], layers=[list(x) for x in calls], object_layers=dup, rule=metas[i], base=base[i][0], with_duplicate=out[i][0]),
+                                  "layer rule outcome changes when an object layer is named twice", {"kind": "layer_duplicate"})
+                    break
         ctx.mark_nontrivial(("lperm", tuple(c["nodes"]), tuple(map(str, calls))))
 
 
